@@ -21,6 +21,23 @@ type gnode struct {
 	group  *workerpool.Group
 	pool   *workerpool.WorkerPool
 	gates  []chan struct{}
+	// busy: a Counter.Increase of this pool is parked inside a subscriber (the counter's value mutex is held: unreadable)
+	busy bool
+	park *gpark
+	// orphan: created in a group that was shut down already (or below such a node): Group.shutdown returns at a set flag
+	// without visiting the children, so no Group.Shutdown will ever stop this pool — the harness stops it itself.
+	orphan bool
+}
+
+// gpark parks the first increase of a pool's counter inside a user subscriber that was attached through an option
+// (so it runs BEFORE the group's subscription): the submitting goroutine then holds the pool's read lock and the
+// counter's value mutex — Group.shutdown, which has set its flag already, blocks in this pool's Shutdown().
+type gpark struct {
+	armed   atomic.Bool
+	parked  chan struct{}
+	release chan struct{}
+	gate    chan struct{} // gate of the task whose Submit is parked
+	sdDone  chan struct{} // closed when the Group.Shutdown call has returned
 }
 
 func (n *gnode) value() int {
@@ -90,8 +107,31 @@ type gtree struct {
 	subs  []*gsub
 }
 
+func (t *gtree) anyBusy() bool {
+	for _, n := range t.nodes {
+		if n.busy {
+			return true
+		}
+	}
+
+	return false
+}
+
+// chain: the counters on the parent chain of node i, bottom-up.
+func (t *gtree) chain(i int) string {
+	var parts []string
+	for ; i >= 0; i = t.nodes[i].parent {
+		parts = append(parts, strconv.Itoa(t.nodes[i].value()))
+	}
+
+	return "[" + strings.Join(parts, " ") + "]"
+}
+
 // checkSubs: every user subscriber has seen exactly the changes of its counter since it subscribed.
 func (t *gtree) checkSubs(r *result, after string) {
+	if t.anyBusy() {
+		return
+	}
 	for k, s := range t.subs {
 		if ok, why := s.ok(t.nodes[s.node].value()); !ok {
 			r.fail("subscriber-stream", fmt.Sprintf("after '%s': subscriber %d of node %d (subscribed at value %d) saw %s: %s", after, k, s.node, s.v0, s, why),
@@ -130,6 +170,9 @@ func (t *gtree) below(g, q int) bool {
 
 // oracle: every group's counter is the number of its children with a non-zero counter.
 func (t *gtree) check(r *result, after string) {
+	if t.anyBusy() {
+		return
+	}
 	for g, n := range t.nodes {
 		if n.group == nil {
 			continue
@@ -216,8 +259,129 @@ func (t *gtree) exec(r *result, op string) string {
 			return "skip"
 		}
 		gate := make(chan struct{})
+		before := t.nodes[a].pool.PendingTasksCounter.Get()
 		t.nodes[a].pool.Submit(func() { <-gate })
+		if t.nodes[a].pool.PendingTasksCounter.Get() == before+1 {
+			t.nodes[a].gates = append(t.nodes[a].gates, gate) // accepted (the script is sequential: nothing else moves the counter)
+		} else {
+			r.count("g:inc-rejected")
+		}
+	case "newpoolpark":
+		if !t.isGroup(a) {
+			return "skip"
+		}
+		pk := &gpark{parked: make(chan struct{}), release: make(chan struct{}), sdDone: make(chan struct{})}
+		withPark := func(w *workerpool.WorkerPool) {
+			w.PendingTasksCounter.Subscribe(func(oldValue, newValue int) {
+				if newValue > oldValue && pk.armed.CompareAndSwap(true, false) {
+					close(pk.parked)
+					<-pk.release
+				}
+			})
+		}
+		t.nodes = append(t.nodes, &gnode{parent: a, park: pk,
+			pool: t.nodes[a].group.CreatePool(name, workerpool.WithWorkerCount(1), workerpool.WithCancelPendingTasksOnShutdown(false), withPark)})
+	case "sdbegin":
+		// Group.Shutdown of group a is called while the first pool below it with a park is in the middle of a Submit
+		if !t.isGroup(a) {
+			return "bad-op"
+		}
+		var pn *gnode
+		for q, n := range t.nodes {
+			if n.park != nil && !n.busy && t.below(a, q) {
+				pn = n
+
+				break
+			}
+		}
+		if pn == nil {
+			return "skip"
+		}
+		pn.park.gate = make(chan struct{})
+		pn.park.armed.Store(true)
+		pn.busy = true
+		gate := pn.park.gate
+		go pn.pool.Submit(func() { <-gate })
+		if !waitChan(pn.park.parked, bound) {
+			r.fail("harness", "park subscriber not reached", map[string]string{"api": "harness", "effect": "hook-not-reached"})
+
+			return "not-parked"
+		}
+		go func() { t.nodes[a].group.Shutdown(); close(pn.park.sdDone) }()
+
+		return "ok"
+	case "sdflag":
+		if !t.isGroup(a) {
+			return "skip"
+		}
+		if !waitFor(bound, t.nodes[a].group.IsShutdown) {
+			r.fail("termination", fmt.Sprintf("group %d is not flagged as shut down", a), map[string]string{"api": "workerpool.Group.Shutdown", "effect": "flag-not-set"})
+
+			return "not-set"
+		}
+
+		return "ok"
+	case "isshut":
+		if !t.isGroup(a) {
+			return "false"
+		}
+
+		return strconv.FormatBool(t.nodes[a].group.IsShutdown())
+	case "incw":
+		// a Submit in the window of Group.shutdown: the flag is set, this pool has not been stopped yet.  The task is
+		// waited for until it runs (so that no cancel-on-shutdown can take it away), then only the parent chain is read.
+		if !t.isPool(a) || t.nodes[a].busy {
+			return "skip"
+		}
+		gate, started := make(chan struct{}), make(chan struct{})
+		before := t.nodes[a].pool.PendingTasksCounter.Get()
+		t.nodes[a].pool.Submit(func() { close(started); <-gate })
+		if t.nodes[a].pool.PendingTasksCounter.Get() != before+1 {
+			return "skip" // the pool was stopped before the Submit
+		}
 		t.nodes[a].gates = append(t.nodes[a].gates, gate)
+		if !waitChan(started, bound) {
+			r.fail("termination", "accepted task did not start", map[string]string{"api": "workerpool.Group", "effect": "task-not-started"})
+		}
+
+		return "ok " + t.chain(a)
+	case "incdone":
+		// the parked Submit goes on: the pool's counter and the chain above it move now; Group.Shutdown can finish
+		if !t.isPool(a) || !t.nodes[a].busy {
+			return "skip"
+		}
+		n := t.nodes[a]
+		close(n.park.release)
+		if !waitChan(n.park.sdDone, bound) {
+			r.fail("termination", "Group.Shutdown did not return", map[string]string{"api": "workerpool.Group.Shutdown", "effect": "hang"})
+		}
+		n.busy = false
+		n.gates = append(n.gates, n.park.gate)
+		if !waitFor(bound, func() bool { return n.pool.PendingTasksCounter.Get() == 1 }) {
+			r.fail("conservation", "the Submit that was parked inside the counter's subscriber is not counted", map[string]string{"api": "workerpool.Submit", "effect": "parked-submit-lost"})
+		}
+	case "sdstop":
+		if !t.isPool(a) || !t.nodes[t.nodes[a].parent].group.IsShutdown() {
+			return "skip"
+		}
+		if !waitFor(bound, func() bool { return !t.nodes[a].pool.IsRunning() }) {
+			r.fail("termination", fmt.Sprintf("pool %d is still running after Group.Shutdown returned", a), map[string]string{"api": "workerpool.Group.Shutdown", "effect": "pool-not-stopped"})
+
+			return "still-running"
+		}
+	case "shutdown":
+		// a whole Group.Shutdown call; with pending children it would block in its WaitIsZero: skipped on both sides
+		if !t.isGroup(a) || t.anyBusy() {
+			return "skip"
+		}
+		if t.nodes[a].value() != 0 {
+			return "skip"
+		}
+		if !within(bound, t.nodes[a].group.Shutdown) {
+			r.fail("termination", fmt.Sprintf("Group.Shutdown of group %d did not return", a), map[string]string{"api": "workerpool.Group.Shutdown", "effect": "hang"})
+
+			return "hang"
+		}
 	case "dec":
 		if !t.isPool(a) || len(t.nodes[a].gates) == 0 {
 			return "skip"
@@ -234,8 +398,14 @@ func (t *gtree) exec(r *result, op string) string {
 			return "bad-op"
 		}
 		ret := within(40*time.Millisecond, t.nodes[a].group.WaitChildren)
+		if !ret && t.nodes[a].value() == 0 {
+			ret = within(bound, t.nodes[a].group.WaitChildren) // a loaded machine: the goroutine was merely not scheduled yet
+		}
 		if ret {
 			for q, n := range t.nodes {
+				if n.busy {
+					continue
+				}
 				if t.below(a, q) && n.value() != 0 {
 					r.fail("group-wait", fmt.Sprintf("WaitChildren of group %d returned while node %d below it has counter %d", a, q, n.value()),
 						map[string]string{"api": "workerpool.Group.WaitChildren", "effect": "returned-with-pending-below"})
@@ -249,6 +419,11 @@ func (t *gtree) exec(r *result, op string) string {
 	default:
 		return "bad-op"
 	}
+	if strings.HasPrefix(f[1], "new") {
+		if n := t.nodes[len(t.nodes)-1]; n.parent >= 0 && t.nodes[n.parent].group.IsShutdown() {
+			n.orphan = true
+		}
+	}
 	t.check(r, op)
 	t.checkSubs(r, op)
 
@@ -261,6 +436,13 @@ func (t *gtree) finish(r *result) {
 			close(g)
 		}
 		n.gates = nil
+		if p := n.parent; p >= 0 && t.nodes[p].orphan {
+			n.orphan = true
+		}
+		if n.pool != nil && n.orphan {
+			n.pool.Shutdown()
+			r.count("g:orphan-pool")
+		}
 	}
 	for i, n := range t.nodes {
 		if n.group != nil && n.parent < 0 {
@@ -315,6 +497,11 @@ func genGroupOps(rng *hx.Rng, n int) []string {
 			ops = append(ops, fmt.Sprintf("g unsub %d", rng.Intn(nsubs))) // may hit an inactive one: both sides skip
 		case x < 36 && nsubs > 0:
 			ops = append(ops, fmt.Sprintf("g stream %d", rng.Intn(nsubs)))
+		case x < 38 && len(ops) > n/2:
+			// a whole Group.Shutdown (skipped on both sides while the group has pending children); pools below it reject from now on
+			ops = append(ops, fmt.Sprintf("g shutdown %d", hx.Pick(rng, groups)))
+		case x < 40:
+			ops = append(ops, fmt.Sprintf("g isshut %d", hx.Pick(rng, groups)))
 		case x < 60:
 			q := hx.Pick(rng, pools)
 			ops = append(ops, fmt.Sprintf("g inc %d", q))
@@ -497,6 +684,32 @@ func runGroup(line string) *result {
 		}
 		t.finish(r)
 		r.nontriv = line
+	case "sdwin":
+		// "group sdwin K VARIANT": Submit in the window of Group.shutdown (flag set, pool not yet stopped), see sdwinOps
+		k, variant := int(seed), 0
+		if len(f) > 3 {
+			variant, _ = strconv.Atoi(f[3])
+		}
+		if k > 8 {
+			k = 8
+		}
+		t := &gtree{}
+		for _, op := range sdwinOps(k, variant) {
+			r.lines = append(r.lines, [2]string{op, t.exec(r, op)})
+			r.count("g:" + strings.Fields(op)[1])
+			if len(r.fails) > 0 {
+				break
+			}
+		}
+		for _, n := range t.nodes {
+			if n.busy {
+				close(n.park.release)
+				close(n.park.gate)
+				n.busy = false
+			}
+		}
+		t.finish(r)
+		r.nontriv = line
 	case "stress":
 		groupStress(r, seed)
 		r.count("g:stress")
@@ -506,11 +719,63 @@ func runGroup(line string) *result {
 	return r
 }
 
+// sdwinOps: group 0 (variant 1: with a sub-group 1 that holds the pools), pool A whose first Submit parks inside a user
+// subscriber, k filler pools, pool B.  Group.Shutdown(0) is called while A's Submit is parked: the flags are set, A's
+// Shutdown() blocks on A's pool lock, the pools after A still run.  A task submitted to B now is accepted and must count
+// in every group above B — WaitChildren must block — although the group is "shut down".
+func sdwinOps(k, variant int) []string {
+	ops := []string{"g newgroup -"}
+	g := 0
+	if variant == 1 {
+		ops = append(ops, "g newgroup 0")
+		g = 1
+	}
+	op := func(format string, a ...any) { ops = append(ops, fmt.Sprintf(format, a...)) }
+	a := g + 1
+	op("g newpoolpark %d", g)
+	for i := 0; i <= k; i++ {
+		op("g newpool %d", g)
+	}
+	b := a + k + 1
+	op("g sdbegin 0")
+	op("g sdflag 0")
+	op("g sdflag %d", g)
+	op("g isshut %d", g)
+	op("g incw %d", b)
+	op("g wait 0")
+	if k > 0 {
+		op("g incw %d", a+1)
+	}
+	op("g wait %d", g)
+	op("g incdone %d", a)
+	for q := a; q <= b; q++ {
+		op("g sdstop %d", q)
+	}
+	op("g inc %d", b)
+	op("g wait 0")
+	op("g dec %d", a)
+	op("g dec %d", b)
+	op("g wait %d", g)
+	op("g dec %d", a+1)
+	op("g dec %d", b)
+	op("g wait 0")
+	op("g shutdown 0")
+	op("g newpool %d", g)
+	op("g inc %d", b+1)
+	op("g dec %d", b+1)
+
+	return ops
+}
+
 func groupCorpus() []string {
-	return []string{"group seq 1 40", "group seq 2 60", "group stress 1", "group stress 2"}
+	return []string{"group seq 1 40", "group seq 2 60", "group stress 1", "group stress 2",
+		"group sdwin 0 0", "group sdwin 1 1", "group sdwin 3 0", "group sdwin 6 1"}
 }
 
 func genGroup(rng *hx.Rng) string {
+	if rng.Chance(1, 6) {
+		return fmt.Sprintf("group sdwin %d %d", rng.Intn(7), rng.Intn(2))
+	}
 	if rng.Bool() {
 		return fmt.Sprintf("group stress %d", rng.U64()%1000000)
 	}
